@@ -84,7 +84,8 @@ def make(props):
         if kind == "crash":
             return "generator crashed/panicked (`%s`, %d objects)" % (form, len(objs))
         if kind == "nondet":
-            return "output differs between runs on the same input (`%s`, %d objects)" % (form, len(objs))
+            return ("output differs between runs on the same input (`%s`, %d objects; run 1 = empty directory, run 2 = over "
+                    "its own previous output, run 3 = over a longer stale typedef_output.go)" % (form, len(objs)))
         if kind == "hang":
             return "generator did not finish within the time limit (`%s`)" % form
         if kind == "nooutput":
